@@ -36,6 +36,35 @@ def dclass(dt):
     return {"u": "uint", "i": "int", "f": "float"}[dt[0]]
 
 
+def rand_index(rng, shape):
+    """Index expression for a region assignment: per axis a slice or (30%) an integer (first, last, negative or random),
+    sometimes only a prefix of the axes (a bare int or a short tuple), sometimes with an Ellipsis."""
+    comps = []
+    for s in shape:
+        if s and rng.random() < 0.3:
+            comps.append(rng.choice([0, s - 1, -1, -s, rng.randrange(s)]))
+        else:
+            comps.append(slice(*sorted([rng.randint(0, s), rng.randint(0, s)])))
+    r = rng.random()
+    if r < 0.2 and len(comps) > 1:
+        k = rng.randint(1, len(comps) - 1)
+        comps = comps[:k]
+        if len(comps) == 1 and rng.random() < 0.6:
+            return comps[0]
+    elif r < 0.3 and len(comps) > 1:
+        k = rng.randrange(len(comps))
+        comps = comps[:k] + [Ellipsis] + comps[k + rng.randint(0, len(comps) - k):]
+    elif r < 0.4 and len(comps) == 1:
+        return comps[0]
+    return tuple(comps)
+
+
+def index_kind(sl):
+    t = sl if isinstance(sl, tuple) else (sl,)
+    k = set("int" if isinstance(x, int) else ("ellipsis" if x is Ellipsis else "slice") for x in t)
+    return "+".join(sorted(k)) + ("" if isinstance(sl, tuple) else ":bare")
+
+
 class Case:
     def __init__(self, ctx, nix, np, rng, path):
         self.ctx, self.nix, self.np, self.rng, self.path = ctx, nix, np, rng, path
@@ -210,10 +239,11 @@ def run_case(ctx, nix, np, path, rng, recipe, rep):
                         da.write_direct(model)
                 elif op == "region":
                     if model.size:
-                        sl = tuple(slice(*sorted([rng.randint(0, s), rng.randint(0, s)])) for s in model.shape)
-                        v = c.values(dt, model[sl].shape)
+                        sl = rand_index(rng, model.shape)
+                        v = c.values(dt, np.shape(model[sl]))
                         if v.size:
-                            da[sl] = v
+                            ctx.count("region_assign:" + index_kind(sl))
+                            da[sl] = v if v.shape else v[()]
                             model[sl] = v
                             mask[sl] = True
                 elif op == "append":
